@@ -145,7 +145,7 @@ class InlineMethod(_Inliner):
             resources = self.project.get_python_files()
         if only_current:
             resources = [self.original]
-            if remove:
+            if remove and _is_changeable(self.project, self.resource):
                 resources.append(self.resource)
         job_set = task_handle.create_jobset("Collecting Changes", len(resources))
         for file in resources:
@@ -267,7 +267,11 @@ class InlineVariable(_Inliner):
                 resources = self.project.get_python_files()
         if only_current:
             resources = [self.original]
-            if remove and self.original != self.resource:
+            if (
+                remove
+                and self.original != self.resource
+                and _is_changeable(self.project, self.resource)
+            ):
                 resources.append(self.resource)
         changes = ChangeSet("Inline variable <%s>" % self.name)
         jobset = task_handle.create_jobset("Calculating changes", len(resources))
@@ -646,6 +650,11 @@ def _inline_variable(
     else:
         source = changed_source
     return source
+
+
+def _is_changeable(project, resource):
+    """Is `resource` a file of `project` that refactorings may change?"""
+    return resource.project == project and not project.is_ignored(resource)
 
 
 def _getvardef(pymodule, pyname):
